@@ -22,7 +22,9 @@ structure G where
   s : State := Lfq.init
   initDummy : Option Nat := none     -- harness number of the dummy that plays node 1 of the model
   legacyMb : Bool := true
-  solo : Option (Nat × Nat × Nat) := none      -- (thread, own steps so far, model bound)
+  solo : Option (Nat × Nat × Nat) := none      -- (thread, own model steps so far, bound `mu` of the proven measure at the call)
+  soloMax : Nat := 0                           -- largest (own steps) seen in a solo run
+  soloSlack : Nat := 1000000                   -- smallest (bound - own steps) seen
   cov : List (String × Nat) := []
 
 abbrev M := P G
@@ -58,9 +60,9 @@ def moOk (got : String) (want : Nat) : Bool := match got.toNat? with
 partial def getEv (desc : String) : M Ev := do
   let e ← P.ev desc fun e => some e
   if e.op == "PARK" then getEv desc else do
-    -- own-step accounting of a solo run (C17)
+    -- own-step accounting of a solo run (C17): every LD / CAS of the operation is exactly one step of the model
     P.act fun g => match g.solo with
-      | some (t, k, b) => if t == e.tid && (e.op == "LD" || e.op == "CAS" || e.op == "MB") then .ok { g with solo := some (t, k + 1, b) } else .ok g
+      | some (t, k, b) => if t == e.tid && (e.op == "LD" || e.op == "CAS") then .ok { g with solo := some (t, k + 1, b) } else .ok g
       | none => .ok g
     pure e
 
@@ -227,10 +229,16 @@ partial def destroyP (t : Nat) : M Unit := do
     frees chain
     P.expect "RET" ["destroy", "0"]
     cover "destroy_ok"
+    if chain.length > 1 then cover "destroy_ok_several_dummies"
   | .destroyed false => do
     P.expect "RET" ["destroy", "-1"]
     cover "destroy_eperm"
   | _ => P.fail "model: destroy returned something else"
+
+/-- at the entry of an operation run solo (C17): the proven measure `mu` of the model state is the bound -/
+def soloBound (t : Nat) : M Unit := P.act fun g => match g.solo with
+  | some (u, k, _) => if u == t then .ok { g with solo := some (u, k, mu g.s t) } else .ok g
+  | none => .ok g
 
 partial def thread (t : Nat) : M Unit := do
   let e ← P.ev "…" fun e => some e
@@ -250,13 +258,16 @@ partial def thread (t : Nat) : M Unit := do
     let n ← match idOfName g nm with
       | some n => pure n
       | none => P.fail s!"bad node name {nm}"
+    if g.s.gen n > 0 then cover "enq_recycled_node"
     labU t (.enqCall n)
+    soloBound t
     enqueueP t n
     let e ← getEv "RET enq"
     if !(e.op == "RET" && e.args == ["enq"]) then P.fail s!"expected RET enq, got {e.show}"
     thread t
   | "CALL", ["deq"] => do
     labU t .deqCall
+    soloBound t
     let r ← dequeueP t
     let g ← P.get
     let want := if r == 0 then "NULL" else nameOf g r
@@ -285,8 +296,12 @@ partial def thread (t : Nat) : M Unit := do
     let g ← P.get
     match g.solo with
     | some (_, k, b) =>
-      if k > b then P.fail s!"solo run took {k} own steps, the proved bound is {b}"
-      else do P.act (fun g => .ok { g with solo := none }); cover "solo_run"
+      if k > b then P.fail s!"solo run took {k} own steps, the proved bound mu is {b}"
+      else if g.s.pc t != .idle then P.fail "solo run ended inside the operation"
+      else do
+        P.act (fun g => .ok { g with solo := none, soloMax := max g.soloMax k, soloSlack := min g.soloSlack (b - k) })
+        cover "solo_run"
+        if k ≥ 9 then cover "solo_run_long"
     | none => pure ()
     thread t
   | "THREAD_EXIT", _ => pure ()
@@ -309,4 +324,5 @@ def main : IO UInt32 := do
     | _ => match parseEv ws with
       | some e => feed (fun t _ => (thread t).run) r e
       | none => .error "unparsable line"
-  loop (← IO.getStdin) f (fun r => showCov r.g.cov) ({ g := {} } : Run G) 0
+  loop (← IO.getStdin) f (fun r => showCov r.g.cov ++ s!" solo_max_steps={r.g.soloMax} solo_min_slack={if r.g.soloSlack == 1000000 then 0 else r.g.soloSlack}")
+    ({ g := {} } : Run G) 0
